@@ -176,6 +176,8 @@ impl Shape {
     /// Check to see whether our current width is above the budget available
     #[must_use]
     pub fn over_budget(&self) -> bool {
+        #[cfg(stylua_verif)]
+        crate::verif::note_budget_check(self.used_width(), self.column_width);
         self.used_width() > self.column_width
     }
 
